@@ -202,7 +202,7 @@ def gen_vector(args):
     def body(ctx):
         params, box = doecommon.sym_parameters(ctx, n)
         if args.get('precision'):
-            params[0]['precision'] = args['precision']
+            params[0]['precision'] = args['precision']      # only the FIRST parameter declares a precision
         g = O.RandomGenerator(params)
         g.init(number)
         vecs = g.generate()
@@ -293,6 +293,8 @@ def configs(tier):
     out.append({'name': 'random-generator-2x2', 'task': 'gen_vector', 'args': {'n': 2, 'number': 2}, 'weight': 5, 'engine': {'validate': 10}})
     out.append({'name': 'random-generator-precision', 'task': 'gen_vector', 'args': {'n': 2, 'number': 1, 'precision': 0.01}, 'weight': 5,
                 'engine': {'validate': 10}})
+    out.append({'name': 'random-generator-coarse-precision-on-first-parameter-only', 'task': 'gen_vector',
+                'args': {'n': 3, 'number': 1, 'precision': 1.0}, 'weight': 5, 'engine': {'validate': 10}})
     ve = {'validate': 5}
     for n, center in ((1, False), (2, True), (3, False), (3, True)):
         out.append({'name': 'doe-fullfact-n%d%s' % (n, '-center' if center else ''), 'task': 'doe_mapping',
